@@ -11,6 +11,7 @@ package main
 // No function of the analysed library is ever executed.
 
 import (
+	"go/constant"
 	"fmt"
 	"go/token"
 	"go/types"
@@ -383,6 +384,9 @@ func (en *Engine) runUntilBranch(st *State) ([]*State, *Terminal, error) {
 			if _, isLit := xv.(*ArrayLitV); isLit {
 				fr.env[x] = mkIndexOfValue(xv, iv, x.Type())
 			}
+			if b, ok := constPrefixByte(xv, iv); ok {
+				fr.env[x] = constOf(constant.MakeInt64(int64(b)), x.Type())
+			}
 			// element of a copy of an effectively-constant package-level array (never written outside init)
 			if l, ok := xv.(*LoadV); ok {
 				if _, isG := directBase(l.Addr).(*GlobalV); isG {
@@ -480,7 +484,12 @@ func (en *Engine) runUntilBranch(st *State) ([]*State, *Terminal, error) {
 				fr.env[x] = r
 			} else {
 				st.addEvent(&Event{Kind: EvIndex, Instr: x, X: xv, I: iv})
-				fr.env[x] = mkIndex(xv, iv, x.Type())
+				// byte i of "const" + s for i inside the constant prefix
+				if b, ok := constPrefixByte(xv, iv); ok {
+					fr.env[x] = constOf(constant.MakeInt64(int64(b)), x.Type())
+				} else {
+					fr.env[x] = mkIndex(xv, iv, x.Type())
+				}
 			}
 		case *ssa.Slice:
 			xv := en.eval(st, fr, x.X)
@@ -1395,6 +1404,41 @@ func decide(st *State, c Val) (bool, bool) {
 	for i := len(st.facts) - 1; i >= 0; i-- {
 		if st.facts[i].Cond.Key() == k {
 			return st.facts[i].Pol, true
+		}
+	}
+	if b, ok := c.(*BinV); ok && (b.Op == token.EQL || b.Op == token.LSS) {
+		// n of a "fills the whole slice or fails" call, on a path where it did not fail, is the slice's length
+		rew := func(v Val) Val {
+			cv, isCall := v.(*CallV)
+			if !isCall || cv.Idx != 0 || cv.N < 2 || len(cv.Args) == 0 {
+				return v
+			}
+			if ct := lookupContract(cv.Callee); ct == nil || !ct.LenRes0 {
+				return v
+			}
+			errV := mkCall(cv.Callee, cv.Fn, cv.Args, cv.Site, cv.N-1, cv.N, nil)
+			ek := "(" + errV.Key() + " == nil)"
+			for _, f := range st.facts {
+				if f.Pol && f.Cond.Key() == ek {
+					return mkLen(st, cv.Args[0], cv.Type())
+				}
+			}
+			return v
+		}
+		if x2, y2 := rew(b.X), rew(b.Y); x2 != b.X || y2 != b.Y {
+			if r, isC := constBool(mkBin(b.Op, x2, y2, b.Type())); isC {
+				return r, true
+			}
+		}
+	}
+	if b, ok := c.(*BinV); ok && b.Op == token.LSS {
+		// lengths are never negative
+		isLen := func(v Val) bool { cv, ok := v.(*CallV); return ok && (cv.Callee == "len" || cv.Callee == "cap") }
+		if k, isK := constInt(b.X); isK && k < 0 && isLen(b.Y) {
+			return true, true
+		}
+		if k, isK := constInt(b.Y); isK && k <= 0 && isLen(b.X) {
+			return false, true
 		}
 	}
 	if b, ok := c.(*BinV); ok && b.Op == token.EQL {
@@ -2313,4 +2357,25 @@ func flagBoundedLoop(header, from *ssa.BasicBlock) bool {
 		}
 	}
 	return false
+}
+
+// constPrefixByte: s[i] where s = "literal" + rest and 0 <= i < len("literal").
+func constPrefixByte(s Val, i Val) (byte, bool) {
+	k, isC := constInt(i)
+	if !isC || k < 0 {
+		return 0, false
+	}
+	for {
+		if str, ok := constString(s); ok {
+			if int(k) < len(str) {
+				return str[k], true
+			}
+			return 0, false
+		}
+		b, ok := s.(*BinV)
+		if !ok || b.Op != token.ADD || !isStringType(b.Type()) {
+			return 0, false
+		}
+		s = b.X
+	}
 }
